@@ -68,7 +68,7 @@ func (S) Info() scen.Info {
 			"reference model":      "write-once map (direct interval rule + porcupine v1.3.0 nondeterministic model, partitioned by key)",
 		},
 		QuickUnits: 60000, ThoroughUnits: 3000000, QuickSecs: 240, ThoroughSecs: 1200,
-		ProbeKeys: []string{"probe.fallback_putstream", "probe.fallback_getstream", "probe.fallback_peek", "probe.fallback_putvec", "probe.buffer_scribbled", "probe.key_with_nul", "probe.key_with_slash", "probe.key_dotdot", "probe.key_empty", "probe.concurrent_put_read", "probe.failed_put", "probe.porcupine_checked", "probe.empty_content", "probe.via_linksystem_openers"},
+		ProbeKeys: []string{"probe.fallback_putstream", "probe.fallback_getstream", "probe.fallback_peek", "probe.fallback_putvec", "probe.buffer_scribbled", "probe.key_with_nul", "probe.key_with_slash", "probe.key_dotdot", "probe.key_empty", "probe.concurrent_put_read", "probe.failed_put", "probe.porcupine_checked", "probe.empty_content", "probe.via_linksystem_openers", "probe.putvec_same_vector_twice"},
 		EventsKey: "events",
 	}
 }
@@ -643,6 +643,15 @@ func (w *world) do(client, kind, k int, pieces []int, end, chunk int, scribble b
 			vec = nil // the empty block as a vector without elements
 		}
 		err := storage.PutVec(ctx, store, key, vec)
+		if !scribble && w.t.Pct(30, "vec.again") {
+			// the caller puts the SAME vector once more (a retry after an error, or an idempotent re-put):
+			// a put only reads what it is handed, so the second call stores the same content
+			w.st.Inc("probe.putvec_same_vector_twice")
+			w.s.Yield("vec.again")
+			if err2 := storage.PutVec(ctx, store, key, vec); err2 == nil {
+				err = nil
+			}
+		}
 		if scribble {
 			for _, v := range vec {
 				scrib(v)
